@@ -58,6 +58,18 @@ let cmd_store r =
     Buffer.add_string buf (pr_opt pr_eval (eval_store c init (mode_of_int m)) ^ " ")) [0; 1; 2; 3];
   Buffer.contents buf
 
+(* labels.reread <seq.run arguments>  ->  the core after write_ext + read_ext into a fresh core (None = the
+   reader raises), then ext_num / ext_str of the core as write() leaves it *)
+let cmd_reread r =
+  let cache_on = rd_bool r in let abs_fix = rd_bool r in
+  let g = rd_qc r in let s = rd_qc r in let sl = rd_qc r in let e = rd_qc r in
+  let ops = rd_list rd_op r in
+  let st = ref { st_core = core_init g s sl e; st_cache = [] } in
+  List.iter (fun o -> let (st', _) = seq_step cache_on abs_fix !st o in st := st') ops;
+  let c = !st.st_core in
+  pr_opt pr_core (reread_ext (core_init g s sl e) c)
+
 let () =
+  Driver.register "labels.reread" cmd_reread;
   Driver.register "labels.eval" cmd_eval;
   Driver.register "labels.store" cmd_store
